@@ -16,7 +16,8 @@ LEVEL = 'exploration'
 BOUND = {'quick': 'per distinct scheme file: all ordered pairs over M(2) C/O with '
                   'radicals + adsorbates + curated + undecomposable molecules '
                   '(~100 molecules); all ordered triples over 12 molecules; '
-                  'estimates for all pairs over 10 molecules x 9 libraries',
+                  'estimates for all pairs over 10 molecules x 9 libraries; all '
+                  'ordered pairs over 6 components of 20-24 heavy atoms',
          'thorough': 'the same over M(3) (~330 molecules per scheme)'}
 RULE = ('every ordered pair / triple is written A.B(.C) and decomposed; '
         'non-trivial = both components decompose to non-empty dictionaries, or '
@@ -133,6 +134,20 @@ def run_pairs(R, name, i, n, tier, only=None):
             check(R, name, S, (a, b), single)
 
 
+BIG = ['C' * 20, 'C' * 21, 'C' * 22, 'CC(C)' + 'C' * 19, 'O' + 'C' * 23,
+       'C1CCCCC1' + 'C' * 16]
+
+
+def run_big(R, name):
+    """Pairs of large components: each alone far below the substructure-search
+    limit, the pair several times larger."""
+    S = scheme(name)
+    single = {s: desc(S, s) for s in BIG}
+    for a in BIG:
+        for b in BIG:
+            check(R, name, S, (a, b), single)
+
+
 def run_triples(R, name, only=None):
     S = scheme(name)
     single = {s: desc(S, s) for s in TRIPLE}
@@ -192,6 +207,7 @@ def shards(tier, seed):
         for i in range(nch):
             out.append(('pairs', name, i, nch))
         out.append(('triples', name))
+        out.append(('big', name))
     for name in libs.LIBS:
         out.append(('estimates', name))
     return out
@@ -203,6 +219,8 @@ def run_shard(shard, tier):
         run_pairs(R, shard[1], shard[2], shard[3], tier)
     elif shard[0] == 'triples':
         run_triples(R, shard[1])
+    elif shard[0] == 'big':
+        run_big(R, shard[1])
     else:
         run_estimates(R, shard[1])
     return R
